@@ -141,6 +141,14 @@ func (w *World) Exec(tpl *pongo2.Template, ep int, ctx pongo2.Context, blocks []
 	case EpExecuteBytes:
 		b, err := tpl.ExecuteBytes(ctx)
 		res.Out, res.err = string(b), err
+		// the returned slice is the caller's: callers do write into it (here: every other
+		// result is overwritten in place), and whatever they leave in it must stay as they left it
+		l.nBytesResults++
+		if l.nBytesResults%2 == 0 {
+			for i := range b {
+				b[i] = '#'
+			}
+		}
 		if len(b) > 0 && len(l.retained) < 8 {
 			l.retained = append(l.retained, retainedBytes{b: b, copy: string(b)})
 		}
